@@ -99,6 +99,12 @@ pub fn judge(sc: &S1Scenario, obs: &Obs) -> Judged {
         }
         _ => {}
     }
+    if obs.join == JoinOutcome::Dropped {
+        c.inc("fault_checker_dropped_without_join");
+        if let Some(l) = &obs.leaked {
+            v.push(Violation::new("C05", format!("deadlock:{}", strat), format!("checker dropped without join; threads left blocked: {}", l)));
+        }
+    }
     if g.panic.is_some() {
         c.inc("panic_configured");
         if panic_fired {
